@@ -1021,6 +1021,13 @@ MUX_DIRECTED = [
      "acts": [{"ev": "Dial", "c": 1, "w": True}, {"ev": "Send", "c": 1, "w": True}, {"ev": "Get", "u": "u9", "w": True},
               {"ev": "Dial", "c": 2, "w": True}, {"ev": "Send", "c": 2, "w": True}, {"ev": "Advance", "w": True}, {"ev": "Advance", "w": True},
               {"ev": "Send", "c": 2, "w": True}, {"ev": "Reply", "h": 1, "c": 1, "w": True}]},
+    {"beh": ["silent", "known", "silent"], "rb": 1, "later": 1, "tag": "directed two Close calls while a connection still waits for its first frame",
+     "acts": [{"ev": "Dial", "c": 1, "w": True}, {"ev": "Dial", "c": 2, "w": True}, {"ev": "Send", "c": 2, "w": True}, {"ev": "Get", "u": "u1", "w": True},
+              {"ev": "Close", "w": True}, {"ev": "Close", "w": True}, {"ev": "Get", "u": "u1", "w": True}, {"ev": "Advance", "w": True},
+              {"ev": "Get", "u": "u9", "w": True}, {"ev": "Advance", "w": True}]},
+    {"beh": ["known", "silent", "silent"], "rb": 1, "later": 1, "tag": "directed second Close racing the first",
+     "acts": [{"ev": "Dial", "c": 1, "w": True}, {"ev": "Send", "c": 1, "w": True}, {"ev": "Dial", "c": 2, "w": True},
+              {"ev": "Close", "w": True}, {"ev": "Close", "w": False}, {"ev": "Advance", "w": True}, {"ev": "Advance", "w": True}]},
     {"beh": ["known", "oversize", "nouser"], "rb": 1, "later": 1, "tag": "directed close with clients in every phase",
      "acts": [{"ev": "Dial", "c": 1, "w": True}, {"ev": "Dial", "c": 2, "w": True}, {"ev": "Dial", "c": 3, "w": False},
               {"ev": "Close", "w": False}]},
